@@ -25,6 +25,7 @@ def run_sched_property(ck, pid, oracle, pfile, nquick, nthorough, analyzer=False
         cfgs.append(sched.gen_config(ck.rng))
     terms, impls = [], {}
     fam = {}
+    bad_grid = []
     oracle_fail = 0
     skipped_model = 0
     for i, cfg in enumerate(cfgs):
@@ -32,6 +33,13 @@ def run_sched_property(ck, pid, oracle, pfile, nquick, nthorough, analyzer=False
         for nm in sched.SCHEDS:
             res = sched.run_sched(nm, cfg)
             fails = oracle(nm, cfg, res)
+            if nm == "vectorized_ltf":
+                g = res["rec"].get("logspace")
+                if g:
+                    import numpy as _np
+                    gr = _np.asarray(g[0][1], float)
+                    if len(gr) and not (gr[0] > 0 and _np.all(_np.diff(gr) >= 0)):
+                        bad_grid.append(json.dumps(sched_kwargs(cfg)))
             for tag, what in fails:
                 oracle_fail += 1
                 ck.violation("%s: %s" % (nm, what), dict(sched_kwargs(cfg), scheduler=nm), tag="%s:%s" % (nm, tag))
@@ -58,6 +66,7 @@ def run_sched_property(ck, pid, oracle, pfile, nquick, nthorough, analyzer=False
     for nm in MODEL_SCHEDS:
         ck.obligation("correspondence:%s_plan == Sched.v model at binary64 (bit-exact f,r,b,L,K,D)" % nm, not mism[nm],
                       "; ".join("%s -> %s" % (json.dumps(sched_kwargs(c)), d) for c, d in mism[nm][:3]))
+    ck.obligation("premise:vectorised lookup grid recorded from the implementation is positive and sorted (hypothesis of C04_vectorized_plan_monotone)", not bad_grid, "; ".join(bad_grid[:3]))
     # oracle-only sweep (cheap): many more boundary configurations, no Coq evaluation
     n_or = 8 * n
     for _ in range(n_or):
